@@ -244,13 +244,11 @@ func rewriteArgs(m *Model, transform func(nonterm int, args []Arg) []Arg) {
 			expr.Args = transform(nonterm, expr.Args)
 		}
 	})
-	for _, set := range m.Sets {
-		set.ForEach(func(ts *TokenSet) {
-			if nonterm := ts.Symbol - len(m.Terminals); nonterm >= 0 {
-				ts.Args = transform(nonterm, ts.Args)
-			}
-		})
-	}
+	m.forEachSet(func(ts *TokenSet) {
+		if nonterm := ts.Symbol - len(m.Terminals); nonterm >= 0 {
+			ts.Args = transform(nonterm, ts.Args)
+		}
+	})
 }
 
 type boundParam struct {
